@@ -500,3 +500,24 @@ def truth_table(expr: ast.AST, atom_of, n_atoms: int):
     except Unmodelled as u:
         return str(u)
     return tuple(out)
+
+
+def guards_of(P, node: ast.AST) -> List[Tuple[str, bool]]:
+    """The branch conditions (normalised text, polarity) under which ``node`` is evaluated inside its function:
+    enclosing `if` statements and conditional expressions (either spelling gives the same list)."""
+    out: List[Tuple[str, bool]] = []
+    child, cur = node, P.parent(node)
+    while cur is not None and not isinstance(cur, (ast.FunctionDef, ast.AsyncFunctionDef, ast.Lambda)):
+        if isinstance(cur, ast.If):
+            if any(child is s for s in cur.body):
+                out.append((cur.test, True))
+            elif any(child is s for s in cur.orelse):
+                out.append((cur.test, False))
+        elif isinstance(cur, ast.IfExp):
+            if child is cur.body:
+                out.append((cur.test, True))
+            elif child is cur.orelse:
+                out.append((cur.test, False))
+        child, cur = cur, P.parent(cur)
+    from .sym import _norm_conds
+    return [(norm(c), pol) for c, pol in _norm_conds(out)]
